@@ -492,6 +492,21 @@ pub fn line_text_pairs(rng: &mut Rng, thorough: bool) -> Vec<(Vec<u8>, Vec<u8>)>
         }
         v.push((a, b));
     }
+    // scale: three-, four- and five-digit line numbers, hunks far apart, and long lines
+    let sizes: Vec<usize> = if thorough { vec![120, 130, 1100, 1200, 10100, 10200] } else { vec![120, 1100, 10100] };
+    for n in sizes {
+        let a = textgen::random_lines(rng, n, 3);
+        let e = rng.range(2, 8);
+        let b = textgen::mutate_lines(rng, &a, e, 3);
+        v.push((a.clone().into_bytes(), b.clone().into_bytes()));
+        v.push((b.into_bytes(), a.into_bytes()));
+    }
+    for l in [300usize, 5000] {
+        let long: String = (0..l).map(|i| (b'a' + (i % 23) as u8) as char).collect();
+        let a = format!("x\n{}\ny\nz\n", long);
+        let b = format!("x\n{}!\ny\nz", long);
+        v.push((a.into_bytes(), b.into_bytes()));
+    }
     v
 }
 
@@ -526,7 +541,7 @@ pub fn drive_c05(a: &Args, out: &mut Out) {
     }
     for (i, (x, y)) in pairs.iter().enumerate() {
         let alg = ALGS[i % 3];
-        let radius = [0usize, 1, 3, 0, 2][i % 5];
+        let radius = if x.len() > 200 { [0usize, 3, 10, 100, 1000][rng.below(5)] } else { [0usize, 1, 3, 0, 2][i % 5] };
         let header = i % 2 == 0;
         let hint = i % 7 != 6;
         let case = out.next_case();
